@@ -34,8 +34,11 @@ type Op struct {
 	//  failF     like appendF but the index commit is made to fail
 	//  reappend  append again (up to N of) the block headers most recently
 	//            rolled back
+	//  ffailB/ffailF  like appendB/appendF but the write to the flat file
+	//            fails after Cut (mod batch size) bytes
 	Kind string `json:"kind"`
 	N    int    `json:"n"`
+	Cut  int    `json:"cut,omitempty"`
 }
 
 func (o Op) String() string { return fmt.Sprintf("%s(%d)", o.Kind, o.N) }
